@@ -157,7 +157,10 @@ def execute(case, consumer_modes=None, faults=None, md_plan=None, finish=True, h
                     loop.advance(a[1])
             elif op == "flush":
                 log.add("flush", a[1])
-                b.nodes[a[1]].flush()
+                try:
+                    b.nodes[a[1]].flush()
+                except Exception as e:  # injected fault reaching the caller of flush()
+                    log.add("flushraise", a[1], type(e).__name__)
             drain()
             pump()
             run.qpoints.append(len(log.events))
@@ -176,6 +179,7 @@ def execute(case, consumer_modes=None, faults=None, md_plan=None, finish=True, h
             maxi = max([nd["p"].get("i", 0) or nd["p"].get("timeout", 0) or 0
                         for nd in spec["nodes"]] + [1.0])
             rounds = 0
+            spin = 0
             scan = [len(log.events)]
 
             def fresh():
@@ -188,8 +192,14 @@ def execute(case, consumer_modes=None, faults=None, md_plan=None, finish=True, h
                     c.finish_all()
                 for j in b.jobs.values():
                     j.finish_all()
+                hits = run.drain_bound_hit
                 drain()
                 pump()
+                if run.drain_bound_hit > hits:
+                    # a map_async whose worker died after an injected fault busy-waits for ever
+                    spin += 1
+                    if spin > 12:
+                        break
                 if fresh():
                     quiet_since = loop.vclock.now
                 alldone = all(r["fut"] is None or r["fut"].done() for r in run.emits) and \
